@@ -51,6 +51,13 @@ def cases(tier, seed, args):
                   K=3 + i % 2, D=2, N=int(rng.integers(8, 11)), L=[3], wca=[(-3,), (-3, -1)][(i // 2) % 2], wca_type='tuple',
                   aligner=True, sam=False)
         out.append(dict(t='emtrace', **sc))
+    # continued fits (initialisation by a model)
+    for i in range(4 if q else 24):
+        sc = mmd.scenario(rng, 'cacgmm', tier)
+        sc.update(regime=['regular', 'separable'][i % 2], init='soft', dtype='float64', iterations=1 + i % 3, saliency=bool(i % 2), K=2 + i % 2,
+                  D=3, N=int(rng.integers(8, 13)), L=[[], [2]][i % 2], wca=(-1,), wca_type='tuple', aligner=False, sam=False, continued=True)
+        sc.pop('wca_pos', None)
+        out.append(dict(t='emtrace', **sc))
     # cACG normalisation x flooring grid: sizeable floors (the floor is reached on ordinary data) and rank-deficient weights
     for i in range(6 if q else 36):
         sc = mmd.scenario(rng, 'cacgmm', tier)
@@ -135,15 +142,22 @@ def _emtrace(case):
             events.append((ev, dict(iteration=f.get('iteration'), model=f.get('model'),
                                     aff=np.array(f['affiliation'], copy=True),
                                     qf=None if f.get('quadratic_form') is None else np.array(f['quadratic_form'], copy=True))))
+    start = init
+    continued = bool(case.get('continued')) and kind == 'cacgmm'
+    if continued:
+        # continued fit: the hooked run starts from the MODEL returned by an earlier fit (iteration 1 begins with an E-step)
+        start, e0 = call(ml.fit, kind, data, init, 1 + case['seed'] % 2, opts)
+        if start is None:
+            return []
     _verif.register(cb)
     try:
-        model, exc = call(ml.fit, kind, data, init, case['iterations'], opts,
+        model, exc = call(ml.fit, kind, data, start, case['iterations'], opts,
                           trainer=ml.trainer_for(kind, **case.get('trainer_kw', {})))
     finally:
         _verif.unregister(cb)
-    fp = f't=emtrace;model={kind};wca={wca};sal={case["saliency"]};aligner={bool(aligner)};opts={case["opts"]}'
+    fp = f't=emtrace;model={kind};wca={wca};sal={case["saliency"]};aligner={bool(aligner)};opts={case["opts"]};continued={continued}'
     key = f'em:{case["seed"]}'
-    recs = [dict(kind='loop', events=[e for e, _ in events], model_start=False, iterations=case['iterations'],
+    recs = [dict(kind='loop', events=[e for e, _ in events], model_start=continued, iterations=case['iterations'],
                  aligner=bool(aligner), mstep_iterations=[int(f['iteration']) for e, f in events if e == 'mstep'],
                  exc=exc if exc not in mmd.EXPLICIT else '', fp=fp + ';loop', key=key + ':loop')]
     if model is None:
